@@ -61,7 +61,7 @@ def build_harness():
     return bindir
 
 
-def vh(args, stdin_path=None, stdout_path=None, timeout=3600, env_extra=None):
+def vh(args, stdin_path=None, stdout_path=None, timeout=3600, env_extra=None, cwd=None):
     """Run the in-process driver binary. Returns (returncode, stdout_text_or_None, stderr_tail)."""
     bindir = build_harness()
     env = dict(os.environ)
@@ -72,7 +72,7 @@ def vh(args, stdin_path=None, stdout_path=None, timeout=3600, env_extra=None):
     fout = open(stdout_path, "wb") if stdout_path else subprocess.PIPE
     try:
         p = subprocess.run([os.path.join(bindir, "vh")] + list(args), stdin=fin, stdout=fout,
-                           stderr=subprocess.PIPE, timeout=timeout, env=env)
+                           stderr=subprocess.PIPE, timeout=timeout, env=env, cwd=cwd)
     except subprocess.TimeoutExpired:
         raise ToolError("vh %s timed out" % " ".join(args))
     finally:
